@@ -36,6 +36,12 @@ ALL = {
           "Coq proof (rollback = identity under the engine invariant) + correspondence on rollback-heavy histories (moves built without estimates)"),
  "C08": E("proof", "Coq theorems (Props/C08.v): planned/unplanned partition, no duplicates, planned iff all stops on routes, unplanned iff none, on all reachable states. " + ENGINE_TIE,
           "Coq proof (invariant) + correspondence (collections as sets per step) + oracle"),
+ "C09": E("proof", "Coq theorems (Props/C09.v): for every reachable state and every well-formed move, if all constraint estimates accept the move (Model/Estimates.v) then the exact checks on the propagated route pass and Execute returns Done; per-constraint soundness lemmas, early exits examined, refuted branches stated with witnesses. Tie: estimate model vs NewMoveStops(...).IsExecutable() and the outcome of Execute on generated histories of checked moves; search: IsExecutable => Execute succeeds and leaves a feasible solution, on the implementation's output.",
+          "Coq proof (estimate => exact, per constraint) + differential correspondence of the estimate model + oracle",
+          "constraints of the modelled core only (capacity, distance, latest start/end, max wait stop/vehicle, max stops, attributes)."),
+ "C10": E("proof", "Coq theorems (Props/C10.v): combine_ascending / generate enumerate exactly the acceptable gap tuples (no duplicates); the order sampler is sound for every Perm tape and complete (exactly the allowed orders, once each) when the sample budget suffices, for the current code; the pre-fix code is refuted (stale direct successor); single-stop selection is executable iff some position is allowed and returns a minimum-cost allowed position, for all coin tapes. Tie: position generator and order generator of /repo (8 seeds) vs the extracted Model/Search.v on states of generated histories; Solution.BestMove vs a brute-force enumeration through NewMoveStops.",
+          "Coq proof (enumeration = specification, sampler soundness/completeness over all tapes) + differential generator sets + brute-force comparison on the implementation",
+          "estimates are parameters (taken from the implementation's own NewMoveStops); PlanAll groups are planned greedily by design and are outside the property's wording."),
  "C11": E("proof", "Coq theorems (Props/C11.v): in a heap model of Copy, fresh treatment of every mutable field implies copy and original observe the same at copy time and are independent under all later writes; an aliased field refutes it. Tie: the field table of solutionImpl/Copy regenerated from /repo equals the reference and satisfies the discipline (Coq obligations each run) + copy-then-mutate histories with snapshots of every live solution vs the model.",
           "Coq proof (heap model, frame) + regenerated-table obligation + differential histories",
           "that Go operations write only through their own solution is checked dynamically, not proved; concurrent use is left to the race detector (C14 thorough)."),
@@ -49,11 +55,23 @@ ALL = {
  "C15": E("proof", "Coq theorems (Props/C15.v) for ALL schedules and budgets of the parallel-solver LTS: performed <= budget, reported = performed, parallelism bound, closed is final, every state can close within a bounded number of steps after cancellation, zero budget, barrier. Tie: protocol projection of the regenerated skeletons + option grid on the real solver with event counts and close times.",
           "Coq proof (invariants over the LTS) + regenerated-skeleton obligations + option-grid runs",
           "partial: wall-clock 'shortly after' checked with slack; Go timers/scheduler not modelled."),
+ "C16": E("proof", "Coq theorems (Props/C16.v): on well-dimensioned inputs the modelled engine core never falls back to a lookup default: every stop on every reachable route is a declared stop, every matrix lookup is in range. PARTIAL: the reflection-heavy decoding/validation glue of the factory is covered only by the differential crash search (corpus of past crashes, structured full-feature stream, malformed stream through NewModel / NewSolution / ParallelSolver.Solve), which is not a proof.",
+          "Coq proof for the modelled core + crash search (structured and malformed JSON streams) on the implementation",
+          "partial: factory glue, API-built models and features outside the modelled core are searched, not proved."),
+ "C18": E("proof", "Coq theorems (Props/C18.v): on every reachable state, executing a move and un-planning the unit again restores routes, cached values, scores exactly and collections as sets, and the un-plan cannot fail; a probe sequence preserves the solution. Tie: check.SolutionCheck at each verbosity on states of generated histories: the snapshot afterwards must equal the model's unchanged state; units reported plannable are re-planned on a copy taken before the check.",
+          "Coq proof (execute-then-unplan = identity on observables) + differential snapshots around check.SolutionCheck",
+          "states with planned nested units are not generated yet; the solution's random source is not observable."),
+ "C19": E("proof", "Coq theorems (Props/C19.v): user constraints are part of the modelled input (bounds on cached fields, per stop or per vehicle, estimate always 'not violated'); on every reachable state every user constraint holds; a rejected move or un-plan restores the solution. Tie: real ModelConstraint implementations in the harness (exact check only) vs the model on histories of checked and unchecked moves and on real solver runs; oracle: the user predicate on every snapshot.",
+          "Coq proof (engine invariant with user checks, all-or-nothing) + differential histories with real custom constraints + oracle",
+          "user constraints of the DSL family (stop-level and vehicle-level bounds on cached fields); solution-level checks and data updaters are not modelled."),
+ "C20": E("proof", "Coq theorems (Props/C20.v): every input stop is listed exactly once (route or unplanned), listed values are the solution's, waiting derived as a difference equals the sum of waits, objective total = sum of terms. Tie: factory.ToSolutionOutput on states of generated histories vs the extracted Model/Format.v; search: the projection recomputed from the input on the implementation's snapshots.",
+          "Coq proof + differential correspondence of the formatter model + oracle",
+          "custom_data pass-through, alternates/groups in the unplanned list and time zones are not modelled; truncation to seconds is the identity on the integer domain."),
  "C17": E("proof", "Coq theorems (Props/C17.v) about Model/TimeDep.v for ALL disjoint minute-aligned layouts within a week inserted in any order, all non-negative duration assignments and all rational departures: accepted, lookup = frame/default, non-negative, FIFO, inside-one-frame, outside-default, total. Tie: correspondence of SetExpression/ValueAtValue/ExpressionAtValue with /repo on generated layouts x dense departure grids each run; the four predicates are also evaluated on the implementation's own values.",
           "Coq proof (induction over element list, Q arithmetic) + differential correspondence of the extracted model",
           "IEEE rounding in ValueAtValue compared within rel 2^-40; empty frames sharing a start with another frame are outside the compared domain (factory validation rejects empty frames)."),
 }
-READY = ["C01", "C02", "C03", "C04", "C05", "C06", "C07", "C08", "C11", "C12", "C13", "C14", "C15", "C17"]
+READY = ["C01", "C02", "C03", "C04", "C05", "C06", "C07", "C08", "C10", "C11", "C12", "C13", "C14", "C15", "C17"]
 CLAIMED = {k: ALL[k] for k in READY}
 NA_REASON = "check under construction (not yet claimed)"
 
